@@ -34,7 +34,7 @@ func (p *OutPort) AddOpenHook(hook OpenHook) bool {
 			return false
 		}
 	}
-	p.openHooks = append(p.openHooks, hook)
+	p.openHooks = append(p.openHooks[:len(p.openHooks):len(p.openHooks)], hook)
 	return true
 }
 
@@ -45,7 +45,7 @@ func (p *OutPort) RemoveOpenHook(hook OpenHook) bool {
 
 	for i, h := range p.openHooks {
 		if h == hook {
-			p.openHooks = append(p.openHooks[:i], p.openHooks[i+1:]...)
+			p.openHooks = append(p.openHooks[:i:i], p.openHooks[i+1:]...)
 			return true
 		}
 	}
@@ -62,7 +62,7 @@ func (p *OutPort) AddCloseHook(hook CloseHook) bool {
 			return false
 		}
 	}
-	p.closeHooks = append(p.closeHooks, hook)
+	p.closeHooks = append(p.closeHooks[:len(p.closeHooks):len(p.closeHooks)], hook)
 	return true
 }
 
@@ -73,7 +73,7 @@ func (p *OutPort) RemoveCloseHook(hook CloseHook) bool {
 
 	for i, h := range p.closeHooks {
 		if h == hook {
-			p.closeHooks = append(p.closeHooks[:i], p.closeHooks[i+1:]...)
+			p.closeHooks = append(p.closeHooks[:i:i], p.closeHooks[i+1:]...)
 			return true
 		}
 	}
@@ -90,7 +90,7 @@ func (p *OutPort) AddListener(listener Listener) bool {
 			return false
 		}
 	}
-	p.listeners = append(p.listeners, listener)
+	p.listeners = append(p.listeners[:len(p.listeners):len(p.listeners)], listener)
 	return true
 }
 
@@ -113,7 +113,7 @@ func (p *OutPort) Link(in *InPort) bool {
 		}
 	}
 
-	p.ins = append(p.ins, in)
+	p.ins = append(p.ins[:len(p.ins):len(p.ins)], in)
 	in.AddCloseHook(CloseHookFunc(func() {
 		p.Unlink(in)
 	}))
@@ -127,7 +127,7 @@ func (p *OutPort) Unlink(in *InPort) bool {
 
 	for i, e := range p.ins {
 		if e == in {
-			p.ins = append(p.ins[:i], p.ins[i+1:]...)
+			p.ins = append(p.ins[:i:i], p.ins[i+1:]...)
 			return true
 		}
 	}
